@@ -29,6 +29,7 @@ def main() -> int:
         return 1 if fails else 0
     if a.prop in FAMILY_PROPS:
         from . import famdriver
+        from . import c13x  # noqa: F401  (registers the C13 stand-alone units)
 
         return famdriver.main(a.prop, a.tier, seed, a.only, a.record)
     import importlib
